@@ -308,11 +308,60 @@ def ob_embed_gate():
                 outside=["qutrit gates outside the one-parameter family p U.U† + (1-p) Z3.Z3†"])
 
 
+def ob_embed_mprocess():
+    """qutrit measurement process with outcomes of DIFFERENT Kraus counts: outcome 0 = projector |0><0| (one Kraus operator), outcome 1 =
+    p Q.Q + (1-p) Z'.Z' with Q = |1><1|+|2><2|, Z' = |1><1|-|2><2| (two orthogonal Kraus operators, symbolic p): the embedded
+    process is trace preserving in total and reproduces every outcome's unnormalised qutrit output on embedded inputs"""
+    from symq import stubs
+    P0 = np.diag([1.0, 0, 0]).astype(complex)
+    Q = np.diag([0, 1.0, 1.0]).astype(complex)
+    Zp = np.diag([0, 1.0, -1.0]).astype(complex)
+    cols = [Zp.flatten() / np.sqrt(2), Q.flatten() / np.sqrt(2)]
+    frame = []
+    for e in list(np.eye(9, dtype=complex)):
+        v = e.copy()
+        for q in cols + frame:
+            v = v - np.vdot(q, v) * q
+        if np.linalg.norm(v) > 1e-8:
+            frame.append(v / np.linalg.norm(v))
+        if len(frame) == 7:
+            break
+    V = np.array(frame + cols).T
+    GM = refs.gell_mann()
+
+    def run(I):
+        c = qenv.csys("T1")
+        p = I["p"]
+        w = [0.0] * 7 + [2 * (1 - p), 2 * p]
+        C1 = stubs.spectral(w, V, "choi1")
+        hs1 = refs.ref_hs_from_choi(C1, GM).real
+        hs0 = np.asarray(nd.to_concrete(refs.ref_hs_from_kraus([P0], GM)), dtype=complex).real.astype(np.float64)
+        mp = mk_mprocess(c, [hs0, hs1], eps_proj_physical=1e-9)
+        e = embed(mp)
+        tot = np.asarray(e.hss[0], dtype=object)[0] + np.asarray(e.hss[1], dtype=object)[0]
+        out = [Holds("two outcomes kept", len(e.hss) == 2),
+               Eq("embedded process is trace preserving in total (sum of first HS rows == e0)", tot, np.eye(16)[0], 1e-7)]
+        BQ2 = refs.ref_basis("Q2")
+        for j, R in enumerate(tomo_lib.state_mats("T1")[3:6]):
+            Rq = W_ISO @ R @ W_ISO.conj().T
+            vin = np.array([np.trace(b.conj().T @ Rq) for b in BQ2]).real
+            outs = [(P0 @ R @ P0).astype(object), (Q @ R @ Q).astype(object) * p + (Zp @ R @ Zp).astype(object) * (1 - p)]
+            for x in range(2):
+                got = refs.ref_matrix(refs.hs_apply(e.hss[x], vin), BQ2)
+                ref = refs.mm(refs.mm(W_ISO, outs[x]), W_ISO.conj().T)
+                out.append(Eq(f"outcome {x} of the embedded process on embedded state {j} == embedding of the qutrit output", got, ref, 1e-7))
+        return out
+    return FnOb([("p", "real", 0.55, 0.95)], run, max_paths=200, expect_nonlinear=True, explore_budget=300,
+                stubs=["np.linalg.eigh/eigvalsh: spectral parametrisation of the 9x9 Choi matrix of outcome 1 (rank 2 family)"],
+                outside=["qutrit measurement processes outside this one-parameter family"])
+
+
 def obligations(tier):
     out = []
     out += specs("C07.embed.state", [{}], ob_embed_state, 2)
     out += specs("C07.embed.povm", [{"m": m} for m in tiers(tier, [2, 3], [2, 3, 4])], ob_embed_povm, 3)
     out += specs("C07.embed.gate", [{}], ob_embed_gate, 8)
+    out += specs("C07.embed.mprocess", [{}], ob_embed_mprocess, 8)
     # states: every permutation of names, each factor symbolic in turn
     for kinds in tiers(tier, ["QQ", "QT", "QQT"], ["QQ", "QT", "TQ", "QQQ", "QQT", "QTQ", "TQT", "QQQQ", "QTQQ"]):
         k = len(kinds)
